@@ -57,7 +57,7 @@ func Open() (*sql.DB, *DB) {
 	if err != nil {
 		panic(err)
 	}
-	db.SetMaxOpenConns(1)
+	db.SetMaxOpenConns(4) // a pool, as in production: a statement that is not bound to the transaction runs on another connection
 	return db, d
 }
 
